@@ -1404,7 +1404,8 @@ pub fn cmd_unset(interp: &mut Interp, _: ContextID, argv: &[Value]) -> MoltResul
 
     let mut options_ok = true;
 
-    for arg in argv {
+    // Skip the command name: it is not a variable to unset.
+    for arg in &argv[1..] {
         let var = arg.as_str();
 
         if options_ok {
